@@ -171,6 +171,7 @@ func init() {
 			{Name: "random", N: core.TierN(4000, 160000), Batch: 100, Run: c17Random},
 			{Name: "directed", N: core.TierN(60, 3200), Batch: 20, Run: c17Directed},
 			{Name: "hammer", N: core.TierN(16, 800), Batch: 2, Run: c17Hammer},
+			{Name: "instant-release", N: core.TierN(60, 2400), Batch: 20, Run: c17InstantRelease},
 			{Name: "early-return", N: core.TierN(200, 8000), Batch: 50, Run: c17EarlyReturn},
 		},
 	})
@@ -435,4 +436,47 @@ func c17EarlyReturn(c *core.Ctx) {
 		c.Nontrivial()
 	}
 	c.Sig("early", holders, len(r.holds), n)
+}
+
+// c17InstantRelease: holders call done at once, before the instance goroutine has necessarily taken its first step
+// (nothing waits for the instance to be seen running); afterwards a fresh Do must still get a running instance, and
+// everything must quiesce.
+func c17InstantRelease(c *core.Ctx) {
+	r := &w17Run{}
+	p := c.RandomPerturb(worker17Sites)
+	defer p.Stop()
+	g := 1 + c.Rng.IntN(4)
+	n := 20 + c.Rng.IntN(200)
+	var wg sync.WaitGroup
+	for h := 0; h < g; h++ {
+		wg.Add(1)
+		go func() {
+			defer wg.Done()
+			for i := 0; i < n; i++ {
+				r.w.Do(r.body(0))()
+				if i%16 == 0 {
+					go func() {}() // another runnable goroutine, so the instance goroutine is not necessarily next
+				}
+			}
+		}()
+	}
+	if !core.AwaitDone(core.Go(wg.Wait), 20000) {
+		c.Violate("do-blocked", "a Do (each released at once) never returned")
+		c.SetDump(core.DumpAll())
+		return
+	}
+	// a fresh holder gets a running instance
+	fresh := core.Go(func() { r.hold(99, 100*time.Microsecond, 0) })
+	if !core.AwaitDone(fresh, 10000) {
+		c.Violate("do-blocked", "a Do after %d instantly released holds never completed", g*n)
+		c.SetDump(core.DumpAll())
+		return
+	}
+	r.check(c)
+	c.Op("do", g*n+1)
+	c.Op("instance", len(r.instances))
+	if len(r.instances) > 1 {
+		c.Nontrivial()
+	}
+	c.Sig("instant", g, len(r.instances) > 1)
 }
